@@ -70,6 +70,22 @@ func genRows(r *simrt.Rand, nextRid *int64, n int, dupPool *[]RowSpec) []RowSpec
 			out = append(out, (*dupPool)[r.Intn(len(*dupPool))])
 			continue
 		}
+		if len(*dupPool) > 0 && r.Chance(12) {
+			// a different series at the same instant: agrees with an earlier row on
+			// time and on one tag, differs in the other tag (value vs value or
+			// value vs NULL); it is a distinct row under every legitimate key
+			row := (*dupPool)[r.Intn(len(*dupPool))]
+			*nextRid++
+			row.Rid, row.NulS = *nextRid, r.Chance(25)
+			if r.Chance(67) {
+				row.Reg = (row.Reg+2+r.Intn(2))%3 - 1
+			} else {
+				row.Host = (row.Host+2+r.Intn(3))%4 - 1
+			}
+			out = append(out, row)
+			*dupPool = append(*dupPool, row)
+			continue
+		}
 		*nextRid++
 		row := RowSpec{Rid: *nextRid, T: ts[r.Intn(len(ts))], Host: r.Intn(3), Reg: r.Intn(2), NulS: r.Chance(25)}
 		if r.Chance(10) {
@@ -106,7 +122,10 @@ func genC09(r *simrt.Rand, tier string) any {
 	if n < 3 {
 		n = 3
 	}
-	mode := r.Intn(7) // 0,1 no metadata; 2 host tags; 3 host+region; 4 schema evolution; 5 dedup_time only; 6 mixed metadata
+	// 0,1 no metadata; 2 host tags; 3 host+region; 4 tag set varies per file; 5 dedup_time only; 6 mixed metadata;
+	// 7 schema evolution: the region tag appears (or disappears) at one point of the file-name order
+	mode := r.Intn(8)
+	evoAdded, evoCut := r.Chance(65), 0
 	twoHours := r.Chance(25)
 	var rid int64
 	var pool []RowSpec
@@ -123,7 +142,7 @@ func genC09(r *simrt.Rand, tier string) any {
 			f.TagMeta, f.HasReg = true, false
 		case 3:
 			f.TagMeta, f.HasReg = true, true
-		case 4:
+		case 4, 7:
 			f.TagMeta = true
 		case 5:
 			f.DedupTime, f.HasReg = true, false
@@ -137,10 +156,32 @@ func genC09(r *simrt.Rand, tier string) any {
 	for i := 0; i < n; i++ {
 		p.Files = append(p.Files, mk(i, false))
 	}
+	if mode == 7 {
+		// the writers switch tag sets once: files named before the cut carry one
+		// set, files named after it the other (tier scanners list by name)
+		evoCut = 1 + r.Intn(n-1)
+		idx := make([]int, n)
+		for i := range idx {
+			idx[i] = i
+		}
+		sort.SliceStable(idx, func(a, b int) bool {
+			fa, fb := &p.Files[idx[a]], &p.Files[idx[b]]
+			if fa.Sec != fb.Sec {
+				return fa.Sec < fb.Sec
+			}
+			return fa.Nano < fb.Nano
+		})
+		for pos, i := range idx {
+			p.Files[i].HasReg = (pos >= evoCut) == evoAdded
+		}
+	}
 	if r.Chance(40) {
 		for i, m := 0, p.Knobs.HourlyMinFiles+r.Intn(2); i < m; i++ {
 			f := mk(i, true)
 			f.Hour = 0
+			if mode == 7 {
+				f.HasReg = evoAdded // late files come from the current writers
+			}
 			p.Late = append(p.Late, f)
 		}
 	}
@@ -215,7 +256,9 @@ type c09world struct {
 	cfg       simrt.Config
 	partStart time.Time
 	tmpl      string // fixture root (contains data/)
-	tags      []string
+	tags      []string            // tag columns of the measurement (union over all hours): the key of the uniform-metadata check
+	hourTags  map[int][]string    // hour partition -> its tag columns: union of the arc:tags of the partition's files
+	timeOnly  bool                // some file carries arc:dedup_time and no arc:tags: its producer declares one row per timestamp
 	dedup     bool
 	uniformMeta bool
 	job       int    // resolved target subprocess invocation
@@ -223,6 +266,7 @@ type c09world struct {
 	expInit   map[string]int // canonical row -> count (initial files)
 	expLate   map[string]int
 	keyOf     map[string]string // canonical row -> dedup key
+	valsOf    map[string]map[string]any // canonical row -> its column values
 }
 
 func (w *c09world) fileRel(f *C09File) string {
@@ -236,23 +280,27 @@ func (w *c09world) base(f *C09File) int64 {
 }
 
 func newC09World(p *C09Plan, cfg simrt.Config) *c09world {
-	w := &c09world{p: p, cfg: cfg, expInit: map[string]int{}, expLate: map[string]int{}, keyOf: map[string]string{}}
+	w := &c09world{p: p, cfg: cfg, expInit: map[string]int{}, expLate: map[string]int{}, keyOf: map[string]string{}, valsOf: map[string]map[string]any{}, hourTags: map[int][]string{}}
 	start := time.Unix(0, cfg.EpochNs).UTC()
 	w.partStart = start.Truncate(time.Hour).Add(-time.Duration(p.AgeHours) * time.Hour)
 	if p.Knobs.Daily {
 		// keep both hour partitions inside one UTC day
 		w.partStart = w.partStart.Truncate(24 * time.Hour).Add(5 * time.Hour)
 	}
-	// Dedup key of the oracle. Which rows may collapse depends on the
-	// metadata of the files that happen to be compacted together (arc unions
-	// the arc:tags of a job's inputs; arc:dedup_time alone means "time"). The
-	// oracle must not assume a particular grouping, so it uses the coarsest key
-	// any job could legitimately use: the tag columns common to every file with
-	// arc:tags, or time alone as soon as one file carries only arc:dedup_time.
-	// uniformMeta (all files carry the same metadata) makes the key exact.
+	// Dedup key of the oracle. The property lets rows collapse only when they
+	// have identical tag values and timestamp. The tag columns of a partition
+	// are the union of the arc:tags lists of its files (initial and late); a
+	// row of a file that lacks one of them has NULL there, and NULL differs
+	// from every value. Rows that differ in any of these columns or in time
+	// must therefore both stay visible, whichever files a job happens to
+	// compact together. The one exception is a producer's own declaration: a
+	// file that carries arc:dedup_time and no arc:tags states that its data has
+	// one row per timestamp, so as soon as such a file exists the oracle only
+	// demands one surviving row per timestamp (jobs that contain that file may
+	// legitimately use time alone).
+	// uniformMeta (all files carry the same metadata) makes the key exact for
+	// every job, which the within-output check relies on.
 	w.uniformMeta = true
-	var common map[string]bool
-	timeOnly := false
 	all := append(append([]C09File(nil), p.Files...), p.Late...)
 	sig := func(f *C09File) string {
 		t := ""
@@ -261,19 +309,21 @@ func newC09World(p *C09Plan, cfg simrt.Config) *c09world {
 		}
 		return fmt.Sprintf("%s|%v", t, f.DedupTime)
 	}
+	hourSet := map[int]map[string]bool{}
+	allSet := map[string]bool{}
 	for i := range all {
 		f := &all[i]
 		tagged := f.TagMeta && len(f.tagCols()) > 0
 		if tagged {
-			cur := map[string]bool{}
-			for _, t := range f.tagCols() {
-				if common == nil || common[t] {
-					cur[t] = true
-				}
+			if hourSet[f.Hour] == nil {
+				hourSet[f.Hour] = map[string]bool{}
 			}
-			common = cur
+			for _, t := range f.tagCols() {
+				hourSet[f.Hour][t] = true
+				allSet[t] = true
+			}
 		} else if f.DedupTime {
-			timeOnly = true
+			w.timeOnly = true
 		}
 		if tagged || f.DedupTime {
 			w.dedup = true
@@ -284,8 +334,16 @@ func newC09World(p *C09Plan, cfg simrt.Config) *c09world {
 			w.uniformMeta = false
 		}
 	}
-	if !timeOnly {
-		for t := range common {
+	if !w.timeOnly {
+		for h, set := range hourSet {
+			var ts []string
+			for t := range set {
+				ts = append(ts, t)
+			}
+			sort.Strings(ts)
+			w.hourTags[h] = ts
+		}
+		for t := range allSet {
 			w.tags = append(w.tags, t)
 		}
 	}
@@ -295,7 +353,8 @@ func newC09World(p *C09Plan, cfg simrt.Config) *c09world {
 		for _, r := range f.Rows {
 			m := f.rowVals(r, w.base(f))
 			c := canon(m)
-			w.keyOf[c] = dedupKey(m, w.tags)
+			w.keyOf[c] = dedupKey(m, w.hourTags[f.Hour])
+			w.valsOf[c] = m
 			if i < len(p.Files) {
 				w.expInit[c]++
 			} else {
@@ -323,17 +382,38 @@ type tracker struct {
 	w        *c09world
 	dataDir  string
 	present  map[string][]string // rel path -> canonical rows
+	meta     map[string]fileMeta // rel path -> dedup metadata found in the file's footer
+	// mixedKeys: dedup keys of rows that went into a job together with rows
+	// that have the same time and the same values in every tag column the
+	// job's inputs declare, but a different value in a tag column that only
+	// other files of the partition declare (the input holding it carries no
+	// arc:tags of its own, e.g. a compacted output). Diagnosis only: it
+	// separates the fingerprints of two different causes of a lost key, it
+	// never decides whether a key is lost.
+	mixedKeys map[string]bool
 	viol     []string            // rule|msg
 	unread   []string
 	removals int
 }
 
+type fileMeta struct {
+	tags      []string
+	dedupTime bool
+}
+
 func (t *tracker) load(rel string) {
-	rows, err := readParquetFile(filepath.Join(t.dataDir, filepath.FromSlash(rel)))
+	path := filepath.Join(t.dataDir, filepath.FromSlash(rel))
+	rows, err := readParquetFile(path)
 	if err != nil {
 		t.unread = append(t.unread, fmt.Sprintf("%s: %v", filepath.Base(rel), err))
 		t.present[rel] = nil
+		delete(t.meta, rel)
 		return
+	}
+	if tags, dt, err := readParquetDedupMeta(path); err == nil {
+		t.meta[rel] = fileMeta{tags: tags, dedupTime: dt}
+	} else {
+		delete(t.meta, rel)
 	}
 	cs := make([]string, len(rows))
 	for i, r := range rows {
@@ -343,7 +423,7 @@ func (t *tracker) load(rel string) {
 }
 
 func newTracker(w *c09world, dataDir string) *tracker {
-	t := &tracker{w: w, dataDir: dataDir, present: map[string][]string{}}
+	t := &tracker{w: w, dataDir: dataDir, present: map[string][]string{}, meta: map[string]fileMeta{}, mixedKeys: map[string]bool{}}
 	for _, rel := range listFiles(dataDir) {
 		if isVisibleParquet(rel) {
 			t.load(rel)
@@ -358,6 +438,59 @@ func (t *tracker) relData(p string) (string, bool) {
 	}
 	rel := filepath.ToSlash(p[len(t.dataDir)+1:])
 	return rel, isVisibleParquet(rel)
+}
+
+// jobInputs looks at the inputs of a job that is about to start (see mixedKeys).
+func (t *tracker) jobInputs(files []string) {
+	if !t.w.dedup || t.w.timeOnly {
+		return
+	}
+	declared := map[string]bool{}
+	dedupTime := false
+	for _, f := range files {
+		m, ok := t.meta[filepath.ToSlash(f)]
+		if !ok {
+			continue
+		}
+		for _, tg := range m.tags {
+			declared[tg] = true
+		}
+		dedupTime = dedupTime || m.dedupTime
+	}
+	if len(declared) == 0 && !dedupTime {
+		return // no dedup metadata among the inputs
+	}
+	var cols []string
+	for tg := range declared {
+		cols = append(cols, tg)
+	}
+	sort.Strings(cols)
+	groups := map[string]map[string]bool{} // key over the declared columns -> oracle keys in it
+	for _, f := range files {
+		for _, c := range t.present[filepath.ToSlash(f)] {
+			m, ok := t.w.valsOf[c]
+			if !ok {
+				continue
+			}
+			g := dedupKey(m, cols)
+			if groups[g] == nil {
+				groups[g] = map[string]bool{}
+			}
+			groups[g][t.w.key(c)] = true
+		}
+	}
+	found := false
+	for _, ks := range groups {
+		if len(ks) > 1 {
+			found = true
+			for k := range ks {
+				t.mixedKeys[k] = true
+			}
+		}
+	}
+	if found {
+		simrt.Count("probe.job_merges_rows_differing_in_undeclared_tag", 1)
+	}
 }
 
 func (t *tracker) observe(op *simrt.FSOp, err error) {
@@ -395,22 +528,29 @@ func (t *tracker) observe(op *simrt.FSOp, err error) {
 				}
 			}
 		}
-		missing := 0
+		missing, mixed := 0, 0
 		for _, c := range rows {
 			k := c
 			if t.w.dedup {
 				k = t.w.key(c)
 			}
 			if !have[k] {
-				missing++
+				if t.w.dedup && t.mixedKeys[k] {
+					mixed++
+				} else {
+					missing++
+				}
 			}
 		}
+		kind := "input"
+		if strings.Contains(rel, "_compacted.parquet") || strings.Contains(rel, "_daily.parquet") {
+			kind = "compacted-output"
+		}
 		if missing > 0 {
-			kind := "input"
-			if strings.Contains(rel, "_compacted.parquet") || strings.Contains(rel, "_daily.parquet") {
-				kind = "compacted-output"
-			}
 			t.viol = append(t.viol, fmt.Sprintf("C09.file-removed-before-rows-in-complete-output.%s|%s removed while %d of its %d rows are in no other complete file of the partition", kind, filepath.Base(rel), missing, len(rows)))
+		}
+		if mixed > 0 {
+			t.viol = append(t.viol, fmt.Sprintf("C09.file-removed-before-rows-in-complete-output"+mixedCause+"|%s %s removed while %d of its %d rows are in no other complete file of the partition: the job merged them into rows that differ in a tag column which none of the job's inputs declares in arc:tags (another file of the partition does)", kind, filepath.Base(rel), mixed, len(rows)))
 		}
 	}
 }
@@ -427,9 +567,21 @@ type verdict struct {
 	msg  string
 }
 
+// mixedCause marks the rules whose cause is established by the diagnosis of
+// tracker.mixedKeys: it does not depend on a fault, so the rule id carries no
+// fault circumstance.
+const mixedCause = ".collapsed-over-tag-undeclared-by-job-inputs"
+
+func ruleID(v verdict, circumstance string) string {
+	if strings.HasSuffix(v.rule, mixedCause) {
+		return v.rule
+	}
+	return v.rule + "." + circumstance
+}
+
 // judge compares what the complete files of the measurement show with what
 // was written.
-func (w *c09world) judge(dataDir string, withLate bool, firstCycle bool, when string) []verdict {
+func (w *c09world) judge(dataDir string, withLate bool, firstCycle bool, when string, mixedKeys map[string]bool) []verdict {
 	var out []verdict
 	exp := map[string]int{}
 	for c, n := range w.expInit {
@@ -478,8 +630,8 @@ func (w *c09world) judge(dataDir string, withLate bool, firstCycle bool, when st
 	} else if int(n) != total {
 		out = append(out, verdict{"C09.scan-count-mismatch", fmt.Sprintf("%s: DuckDB scan shows %d rows, the files hold %d", when, n, total)})
 	}
-	var lost, dup, alien int
-	var exLost, exDup, exAlien string
+	var lost, lostMixed, dup, alien int
+	var exLost, exLostMixed, exDup, exAlien string
 	if !w.dedup {
 		for c, n := range exp {
 			if got[c] < n {
@@ -515,14 +667,26 @@ func (w *c09world) judge(dataDir string, withLate bool, firstCycle bool, when st
 		for c := range exp {
 			k := w.key(c)
 			if !seenKey[k] && groups[k] == 0 {
-				lost++
-				exLost = c
+				if mixedKeys[k] {
+					lostMixed++
+					if exLostMixed == "" || c < exLostMixed {
+						exLostMixed = c
+					}
+				} else {
+					lost++
+					if exLost == "" || c < exLost {
+						exLost = c
+					}
+				}
 			}
 			seenKey[k] = true
 		}
 	}
 	if lost > 0 {
 		out = append(out, verdict{"C09.rows-lost", fmt.Sprintf("%s: %d written rows (dedup keys) are shown by no complete file, e.g. %s", when, lost, exLost)})
+	}
+	if lostMixed > 0 {
+		out = append(out, verdict{"C09.rows-lost" + mixedCause, fmt.Sprintf("%s: %d written rows (dedup keys) are shown by no complete file, e.g. %s: a job merged them into rows that differ in a tag column which none of that job's inputs declares in arc:tags (another file of the partition does; the input holding the values carries no arc:tags, e.g. a compacted output)", when, lostMixed, exLostMixed)})
 	}
 	if dup > 0 {
 		out = append(out, verdict{"C09.rows-duplicated", fmt.Sprintf("%s: %d rows are shown more often than they were written, e.g. %s", when, dup, exDup)})
@@ -568,6 +732,7 @@ func (w *c09world) episode(fp *faultPoint, twin *epResult) *epResult {
 		curPod = pd
 		defer func() { curPod = nil }()
 		trk := newTracker(w, pd.dataDir)
+		pd.inspect = trk.jobInputs
 		var rec []fsRec
 		recording := fp == nil
 		live := map[string]*progress{}
@@ -705,7 +870,7 @@ func (w *c09world) episode(fp *faultPoint, twin *epResult) *epResult {
 			}
 		}
 		if fp == nil {
-			for _, v := range w.judge(pd.dataDir, false, true, "after the fault-free first cycle") {
+			for _, v := range w.judge(pd.dataDir, false, true, "after the fault-free first cycle", trk.mixedKeys) {
 				ep.verdicts = append(ep.verdicts, v)
 			}
 		}
@@ -752,7 +917,7 @@ func (w *c09world) episode(fp *faultPoint, twin *epResult) *epResult {
 				ep.note = "pod died in a fault-free later cycle"
 				return
 			}
-			for _, v := range w.judge(pd.dataDir, withLate, false, fmt.Sprintf("after later cycle %d", i+1)) {
+			for _, v := range w.judge(pd.dataDir, withLate, false, fmt.Sprintf("after later cycle %d", i+1), trk.mixedKeys) {
 				ep.verdicts = append(ep.verdicts, v)
 			}
 			simrt.Event("JUDGED cycle=%d files=%d", i+2, len(trk.present))
@@ -963,7 +1128,7 @@ func runC09(planAny any, cfg simrt.Config) *simkit.Outcome {
 		return out
 	}
 	for _, v := range twin.verdicts {
-		out.Violate(v.rule+".fault-free", "%s", v.msg)
+		out.Violate(ruleID(v, "fault-free"), "%s", v.msg)
 	}
 	out.Stats["probe.jobs_fault_free"] += int64(twin.jobs)
 	if twin.jobs > 0 {
@@ -1028,7 +1193,7 @@ func runC09(planAny any, cfg simrt.Config) *simkit.Outcome {
 				// "<output>.part" staging file that a later job read as an input
 				label = "leftover-staging-part-file-compacted-as-input"
 			}
-			rule := fmt.Sprintf("%s.%s.%s", v.rule, familyWord(p.Family), label)
+			rule := ruleID(v, familyWord(p.Family)+"."+label)
 			out.Violate(rule, "fault point %s (index %d in the %s window of node %s; durable before it: %s): %s", fp.Key, fp.Idx, p.Family, w.node, fp.Label, v.msg)
 		}
 		if len(ep.verdicts) > 0 {
